@@ -1444,7 +1444,17 @@ const WCPS: &[u32] = &[
 ];
 const BYTES_A: &[u8] = &[b'a', 0, 0x7f, 0x80, 0xff, 0xC3, 0xA9, 0xED, 0xA0, 0x80, b'Z', b' ', 0xF0, 0x9F, 0x98, 0x81];
 
+/// sizes around which allocators, page rounding and capacity doubling change behaviour
+const BIG: [usize; 21] = [
+    64, 128, 256, 512, 1024, 2048, 4096, 8192, 12288, 16384, 32768, 65536, 126976, 131072, 135168, 139264, 143360, 196608,
+    262144, 524288, 1048576,
+];
+
 pub(crate) fn gen_len(s: &mut Src) -> usize {
+    if s.chance(5) {
+        // a size class / page boundary, up to 20 bytes below .. 19 above
+        return (*s.pick(&BIG) + 19).saturating_sub(s.below(40));
+    }
     if s.chance(150) {
         *s.pick(&SPECIAL)
     } else {
